@@ -197,3 +197,14 @@ def span_site(sp):
     if isinstance(sp, dict):
         return sp["cs"]
     return sp
+
+
+def tail_is(npath, name):
+    """The (normalised) definition path ends in `name` (module prefixes are not part of an anchor:
+    moving an item to another module must not unhinge the analysis)."""
+    return npath == name or npath.endswith("::" + name)
+
+
+def is_scanner_path(npath, names):
+    """A byte-class scanner: one of the `match_*_vectored` functions, wherever it is defined."""
+    return npath.split("::")[-1] in names and "{" not in npath
